@@ -168,7 +168,7 @@ def opEnd (r : Bytes) : Bool :=
   match r with
   | [] => true
   | 44 :: _ => true
-  | 32 :: 116 :: _ => true
+  | 32 :: _ => true
   | _ => false
 
 /-- what may follow a stand-alone type: nothing, a comma, ` [` (the incoming list of a phi), or ` %` / ` @` (the callee of a call) -/
@@ -346,6 +346,8 @@ def argOK : Arg → Prop
   | .align a => ∀ n ∈ a, n < 2 ^ 63
   | .tyvals ixs => ∀ p ∈ ixs, operandOK p.2
   | .flags _ => True
+  | .kw _ => True
+  | .okw _ => True
 
 /-- a local or a global (not a constant) -/
 def isRef : Operand → Bool
@@ -371,6 +373,11 @@ inductive Matches : List Slot → List Arg → Prop
       {fs : List Slot} {as : List Arg} : Matches fs as → Matches (.flags ks :: .tyval :: fs) (.flags xs :: .tyval t o :: as)
   | flagsTy (ks : List Bytes) (xs : List Nat) (t : Ty) (hb : ∀ i ∈ xs, i < ks.length) (hty : flagTyCommaOK ks t = true)
       {fs : List Slot} {as : List Arg} : Matches fs as → Matches (.flags ks :: .ty :: fs) (.flags xs :: .ty t :: as)
+  | flagsKw (ks : List Bytes) (xs : List Nat) (ks2 : List Bytes) (i : Nat) (hb : ∀ i ∈ xs, i < ks.length) (hi : i < ks2.length)
+      {fs : List Slot} {as : List Arg} : Matches fs as → Matches (.flags ks :: .kw ks2 :: fs) (.flags xs :: .kw i :: as)
+  | kw (ks : List Bytes) (i : Nat) (hi : i < ks.length) {fs : List Slot} {as : List Arg} : Matches fs as → Matches (.kw ks :: fs) (.kw i :: as)
+  | okw (ks : List Bytes) (o : Option Nat) (ho : ∀ i ∈ o, i < ks.length) {fs : List Slot} {as : List Arg} :
+      Matches fs as → Matches (.okw ks :: fs) (.okw o :: as)
 
 theorem matches_nil (as : List Arg) (h : Matches [] as) : as = [] := by cases h; rfl
 
@@ -386,6 +393,9 @@ def labFollow : List Slot → Bool
   | .lit (32 :: _) :: _ => true
   | _ => false
 
+/-- every keyword starts with a space -/
+def startSp (ks : List Bytes) : Bool := ks.all fun k => k.head? == some 32
+
 def opFollow : List Slot → Bool
   | [] => true
   | .lit (44 :: _) :: _ => true
@@ -393,6 +403,8 @@ def opFollow : List Slot → Bool
   | [.nums] => true
   | [.align] => true
   | [.tyvals] => true
+  | .kw ks :: _ => startSp ks
+  | [.okw ks, .align] => startSp ks
   | _ => false
 
 def tyFollow : List Slot → Bool
@@ -458,6 +470,15 @@ def keysDiverge : List Bytes → Bool
 
 def keysOK (ks : List Bytes) : Bool := ks.all (fun k => !k.contains 32) && keysDiverge ks
 
+/-- keywords that are matched as they stand: each diverges from every later one -/
+def kwsDiverge : List Bytes → Bool
+  | [] => true
+  | k :: ks => ks.all (fun q => diverge k q) && kwsDiverge ks
+
+/-- none of the flag keywords (followed by a space) starts one of the keywords `ks2`, each of which ends with a space -/
+def flagsKwOK (ks ks2 : List Bytes) : Bool :=
+  ks2.all fun q => q.getLast? == some 32 && ks.all fun k => !(TyParse.stripPrefix (k ++ [32]) q).isSome
+
 /-- shape of a row: what follows each kind of slot; the two list-like slots end the row -/
 def fmtOK : List Slot → Bool
   | [] => true
@@ -473,7 +494,9 @@ def fmtOK : List Slot → Bool
   | .tyvals :: fs => fs.isEmpty
   | .callee :: fs => (match fs with | [.cargs] => true | _ => false)
   | .cargs :: fs => fs.isEmpty
-  | .flags ks :: fs => keysOK ks && (match fs with | .tyval :: _ => true | .ty :: .lit (44 :: 32 :: _) :: _ => true | _ => false) && fmtOK fs
+  | .flags ks :: fs => keysOK ks && (match fs with | .tyval :: _ => true | .ty :: .lit (44 :: 32 :: _) :: _ => true | .kw ks2 :: _ => flagsKwOK ks ks2 | _ => false) && fmtOK fs
+  | .kw ks :: fs => kwsDiverge ks && fmtOK fs
+  | .okw ks :: fs => kwsDiverge ks && startSp ks && (match fs with | [.align] => true | _ => false)
 
 theorem endOK_print (useHex : Int → Bool) (cur : Ty) (fs : List Slot) (as : List Arg)
     (hs : startsComma fs = true) : endOK (printSlots useHex cur fs as) = true := by
@@ -492,8 +515,17 @@ theorem labEnd_print (useHex : Int → Bool) (cur : Ty) (fs : List Slot) (as : L
   · simp [printSlots, identEnd, inTail, inHead, isAlpha, isUpper, isLower, isDigit]
   · cases hs
 
+theorem startSp_getD (ks : List Bytes) (i : Nat) (hi : i < ks.length) (h : startSp ks = true) : ∃ r, ks.getD i [] = 32 :: r := by
+  have hk : ks.getD i [] = ks[i] := by simp [List.getD, List.getElem?_eq_getElem hi]
+  have hm : ks[i] ∈ ks := List.getElem_mem hi
+  have := List.all_eq_true.mp h _ hm
+  rw [hk]
+  cases hx : ks[i] with
+  | nil => rw [hx] at this; simp at this
+  | cons c r => rw [hx] at this; simp at this; exact ⟨r, by rw [this]⟩
+
 theorem opEnd_print (useHex : Int → Bool) (cur : Ty) (fs : List Slot) (as : List Arg)
-    (hs : opFollow fs = true) : opEnd (printSlots useHex cur fs as) = true := by
+    (hs : opFollow fs = true) (hm : Matches fs as) : opEnd (printSlots useHex cur fs as) = true := by
   unfold opFollow at hs
   split at hs
   · simp [printSlots, opEnd]
@@ -523,6 +555,23 @@ theorem opEnd_print (useHex : Int → Bool) (cur : Ty) (fs : List Slot) (as : Li
       cases ixs with
       | nil => simp [tyvalsString, printSlots, opEnd]
       | cons p ps => obtain ⟨t, o⟩ := p; simp [tyvalsString, sComma, opEnd]
+  · cases hm with
+    | kw _ i hi hm' =>
+      obtain ⟨r, hr⟩ := startSp_getD _ i hi hs
+      simp only [printSlots]; rw [hr]; simp [opEnd]
+  · cases hm with
+    | okw _ o ho hm' =>
+      cases hm' with
+      | align a hm'' =>
+        have := matches_nil _ hm''; subst this
+        cases o with
+        | none =>
+          cases a with
+          | none => simp [printSlots, alignString, opEnd]
+          | some n => simp [printSlots, alignString, sAlign, opEnd]
+        | some i =>
+          obtain ⟨r, hr⟩ := startSp_getD _ i (ho i rfl) hs
+          simp only [printSlots]; rw [hr]; simp [opEnd]
   · cases hs
 
 theorem tyEnd_print (useHex : Int → Bool) (cur : Ty) (fs : List Slot) (as : List Arg)
@@ -664,6 +713,42 @@ theorem readFlags_print (ks : List Bytes) (rest : Bytes) (hd : keysDiverge ks = 
     rw [e]
     simp only [readFlags, findFlag_spec ks 0 i (ks.getD i []) _ hd hk, Nat.zero_add, ih]
 
+theorem findKw_spec : ∀ (ks : List Bytes) (i0 i : Nat) (k rest : Bytes), kwsDiverge ks = true → ks[i]? = some k →
+    findKw i0 ks (k ++ rest) = some (i0 + i, rest)
+  | [], _, _, _, _, _, h => by simp at h
+  | q :: ks, i0, 0, k, rest, _, h => by
+    simp at h; subst h
+    simp only [findKw, TyParse.stripPrefix_append, Nat.add_zero]
+  | q :: ks, i0, i + 1, k, rest, hd, h => by
+    simp only [kwsDiverge, Bool.and_eq_true, List.all_eq_true] at hd
+    have hr : ks[i]? = some k := by simpa using h
+    have hmem : k ∈ ks := List.mem_of_getElem? hr
+    have : TyParse.stripPrefix q (k ++ rest) = none := stripPrefix_diverge q k rest (hd.1 k hmem)
+    simp only [findKw, this]
+    rw [findKw_spec ks (i0 + 1) i k rest hd.2 hr]
+    simp; omega
+
+theorem findKw_none : ∀ (ks : List Bytes) (i0 : Nat) (s : Bytes), (∀ k ∈ ks, TyParse.stripPrefix k s = none) → findKw i0 ks s = none
+  | [], _, _, _ => rfl
+  | k :: ks, i0, s, h => by
+    simp only [findKw, h k (by simp)]
+    exact findKw_none ks (i0 + 1) s (fun q hq => h q (by simp [hq]))
+
+/-- a keyword that starts with a space is no prefix of the empty text or of a text that starts with a comma -/
+theorem stripPrefix_sp_none (k s : Bytes) (hk : k.head? = some 32) (hs : s = [] ∨ s.head? = some 44) : TyParse.stripPrefix k s = none := by
+  cases k with
+  | nil => simp at hk
+  | cons c k' =>
+    simp at hk; subst hk
+    rcases hs with hs | hs
+    · subst hs; simp [TyParse.stripPrefix]
+    · cases s with
+      | nil => simp at hs
+      | cons d s' => simp at hs; subst hs; simp [TyParse.stripPrefix]
+
+theorem getD_getElem? (ks : List Bytes) (i : Nat) (hi : i < ks.length) : ks[i]? = some (ks.getD i []) := by
+  simp [List.getD, List.getElem?_eq_getElem hi]
+
 theorem flagsString_len (ks : List Bytes) : ∀ (xs : List Nat), xs.length ≤ (flagsString ks xs).length
   | [] => by simp [flagsString]
   | i :: xs => by have := flagsString_len ks xs; simp [flagsString]; omega
@@ -735,7 +820,7 @@ theorem read_print_slots (useHex : Int → Bool) (fs : List Slot) (as : List Arg
     have ha' : ∀ a ∈ as', argOK a := fun a h => ha a (by simp [h])
     simp only [printSlots, readSlots, List.append_assoc, List.cons_append, List.nil_append]
     rw [tyval_step useHex t o _ ho]
-    simp only [readOperand_operandString useHex t o _ ho (opEnd_print useHex t fs' as' hf.1)]
+    simp only [readOperand_operandString useHex t o _ ho (opEnd_print useHex t fs' as' hf.1 hm)]
     simp only [ih t hf.2 ha']
   | @val o fs' as' hm ih =>
     intro cur hf ha
@@ -743,7 +828,7 @@ theorem read_print_slots (useHex : Int → Bool) (fs : List Slot) (as : List Arg
     have ho : operandOK o := ha (.val o) (by simp)
     have ha' : ∀ a ∈ as', argOK a := fun a h => ha a (by simp [h])
     simp only [printSlots, readSlots]
-    simp only [readOperand_operandString useHex cur o _ ho (opEnd_print useHex cur fs' as' hf.1)]
+    simp only [readOperand_operandString useHex cur o _ ho (opEnd_print useHex cur fs' as' hf.1 hm)]
     simp only [ih cur hf.2 ha']
   | @lab i fs' as' hm ih =>
     intro cur hf ha
@@ -853,7 +938,7 @@ theorem read_print_slots (useHex : Int → Bool) (fs : List Slot) (as : List Arg
     rw [hrf]
     simp only
     rw [tyval_step useHex t o _ ho]
-    simp only [readOperand_operandString useHex t o _ ho (opEnd_print useHex t fs' as' hf2.1)]
+    simp only [readOperand_operandString useHex t o _ ho (opEnd_print useHex t fs' as' hf2.1 hm)]
     simp only [ih t hf2.2 ha']
   | @flagsTy ks xs t hb hty fs' as' hm ih =>
     intro cur hf ha
@@ -866,6 +951,7 @@ theorem read_print_slots (useHex : Int → Bool) (fs : List Slot) (as : List Arg
       split at hshape
       · rename_i h; cases h
       · rename_i h; injection h with _ h2; exact ⟨_, _, h2⟩
+      · rename_i h; cases h
       · cases hshape
     subst hfs
     have hrest : ∀ k ∈ ks, TyParse.stripPrefix (k ++ [32])
@@ -903,6 +989,80 @@ theorem read_print_slots (useHex : Int → Bool) (fs : List Slot) (as : List Arg
     have hk : ∀ p ∈ ixs, operandOK p.2 := ha (.tyvals ixs) (by simp)
     simp only [printSlots, readSlots, List.append_nil]
     rw [readCargs_print useHex ixs hk]
+  | @kw ks i hi fs' as' hm ih =>
+    intro cur hf ha
+    simp only [fmtOK, Bool.and_eq_true] at hf
+    have ha' : ∀ a ∈ as', argOK a := fun a h => ha a (by simp [h])
+    simp only [printSlots, readSlots]
+    rw [findKw_spec ks 0 i (ks.getD i []) _ hf.1 (getD_getElem? ks i hi)]
+    simp only [Nat.zero_add, ih cur hf.2 ha']
+  | @okw ks o ho fs' as' hm ih =>
+    intro cur hf ha
+    simp only [fmtOK, Bool.and_eq_true] at hf
+    obtain ⟨⟨hdv, hsp⟩, hshape⟩ := hf
+    have hfs : fs' = [.align] := by
+      split at hshape
+      · rfl
+      · cases hshape
+    subst hfs
+    have ha' : ∀ a ∈ as', argOK a := fun a h => ha a (by simp [h])
+    have hfmt : fmtOK [Slot.align] = true := by simp [fmtOK]
+    cases hm with
+    | align a hm' =>
+    have := matches_nil _ hm'; subst this
+    cases o with
+    | some i =>
+      have hi := ih cur hfmt ha'
+      simp only [printSlots, readSlots] at hi ⊢
+      rw [findKw_spec ks 0 i (ks.getD i []) _ hdv (getD_getElem? ks i (ho i rfl))]
+      simp only [Nat.zero_add, hi]
+    | none =>
+        have hnone : findKw 0 ks (printSlots useHex cur [Slot.align] [Arg.align a]) = none := by
+          apply findKw_none
+          intro k hk
+          have hk32 : k.head? = some 32 := by
+            have := List.all_eq_true.mp hsp k hk
+            simpa using this
+          apply stripPrefix_sp_none k _ hk32
+          cases a with
+          | none => left; simp [printSlots, alignString]
+          | some n => right; simp [printSlots, alignString, sAlign]
+        simp only [printSlots, readSlots] at hnone ⊢
+        rw [hnone]
+        have := ih cur hfmt ha'
+        simp only [printSlots, readSlots] at this
+        simp only [this]
+  | @flagsKw ks xs ks2 i hb hi fs' as' hm ih =>
+    intro cur hf ha
+    simp only [fmtOK, Bool.and_eq_true] at hf
+    obtain ⟨⟨hkeys, hshape⟩, hdv2, hf2⟩ := hf
+    simp only [keysOK, Bool.and_eq_true, List.all_eq_true] at hkeys
+    have ha' : ∀ a ∈ as', argOK a := fun a h => ha a (by simp [h])
+    -- what follows the flags starts with the keyword, which ends with a space and starts with none of the flag keywords
+    have hq : ks2.getD i [] ∈ ks2 := by
+      have : ks2.getD i [] = ks2[i] := by simp [List.getD, List.getElem?_eq_getElem hi]
+      rw [this]; exact List.getElem_mem hi
+    have hqq := List.all_eq_true.mp hshape _ hq
+    simp only [Bool.and_eq_true, beq_iff_eq, List.all_eq_true, Bool.not_eq_true'] at hqq
+    have hrest : ∀ k ∈ ks, TyParse.stripPrefix (k ++ [32]) (ks2.getD i [] ++ printSlots useHex cur fs' as') = none := by
+      intro k hk
+      have h1 : TyParse.stripPrefix (k ++ [32]) (ks2.getD i []) = none := by
+        have := hqq.2 k hk
+        cases h' : TyParse.stripPrefix (k ++ [32]) (ks2.getD i []) with
+        | none => rfl
+        | some x => rw [h'] at this; simp at this
+      have hk32 : (32 : UInt8) ∉ k := by
+        have := hkeys.1 k hk
+        simpa using this
+      exact stripPrefix_key_append k _ _ hk32 hqq.1 h1
+    have hrf := readFlags_print ks _ hkeys.2 hrest xs
+      ((flagsString ks xs ++ (ks2.getD i [] ++ printSlots useHex cur fs' as')).length + 1) hb
+      (by have := flagsString_len ks xs; simp only [List.length_append] at this ⊢; omega)
+    simp only [printSlots, readSlots] at hrf ⊢
+    rw [hrf]
+    simp only
+    rw [findKw_spec ks2 0 i (ks2.getD i []) _ hdv2 (getD_getElem? ks2 i hi)]
+    simp only [Nat.zero_add, ih cur hf2 ha']
 
 /-! ### the row table -/
 
